@@ -133,11 +133,15 @@ func (fv *FuncVerifier) findCuts() {
 			}
 			return true
 		})
-		if len(matches) != 1 {
+		if c.Nth == 0 && len(matches) != 1 || c.Nth > len(matches) {
 			fv.errs = append(fv.errs, fmt.Sprintf("STALE: before %q matches %d statements in %s", c.Text, len(matches), funcKey(fv.fn)))
 			continue
 		}
 		st := matches[0]
+		if c.Nth > 0 {
+			sort.Slice(matches, func(i, j int) bool { return matches[i].Pos() < matches[j].Pos() })
+			st = matches[c.Nth-1]
+		}
 		var best ssa.Instruction
 		for _, b := range fv.fn.Blocks {
 			for _, in := range b.Instrs {
@@ -682,6 +686,16 @@ func (fv *FuncVerifier) loopWrites(e *Enc, h *ssa.BasicBlock) []string {
 			for _, hn := range instrWrites(w, de, in) {
 				set[hn] = true
 			}
+			for _, c := range fv.cutAt[in] {
+				for _, sc := range c.Sets {
+					if !fv.pass.Active(sc.Tags) {
+						continue
+					}
+					if hn, err := w.heapGhost(sc.Ghost); err == nil {
+						set[hn] = true
+					}
+				}
+			}
 		}
 	}
 	return sortedHeapNames(set)
@@ -884,6 +898,31 @@ func (fv *FuncVerifier) encodeFunction(e *Enc) {
 					}
 					e.oblige("lemma", fmt.Sprintf("lemma#%d.%d(before %q)", ci, k, c.Text), t, cl.Tags, cl.Src)
 					e.assume(fmt.Sprintf("(=> %s %s)", e.reach[b], t))
+				}
+				// ghost assignments: all right-hand sides are evaluated in the state before the first of them
+				var hs, ts []string
+				for _, sc := range c.Sets {
+					if !fv.pass.Active(sc.Tags) {
+						continue
+					}
+					h, err := fv.w.heapGhost(sc.Ghost)
+					if err != nil {
+						e.errorf("sets: %v", err)
+						continue
+					}
+					if !fv.ghostAllowed(h) {
+						e.errorf("sets %s: the ghost is not in the function's `modifies ghost` list", sc.Ghost)
+						continue
+					}
+					t, _, err := env.elab(sc.E)
+					if err != nil {
+						e.errorf("sets %s: %v", sc.Ghost, err)
+						continue
+					}
+					hs, ts = append(hs, h), append(ts, t)
+				}
+				for k := range hs {
+					e.setHeap(hs[k], ts[k])
 				}
 			}
 			e.instr(in)
